@@ -179,6 +179,7 @@ structure Sess (C R : Type) where
   content : C                              -- ghost: committed content when the read guard was taken
   root : R                                 -- ghost: `shared.root` at that moment
   prev : Option R := none                  -- `Session::prev_root` once `begin_session` has read it
+deriving DecidableEq
 
 /-- thread-local registers -/
 structure Regs (C R D : Type) where
@@ -436,5 +437,21 @@ theorem not_wf_holdM (cs : CS R W D) (id : Nat) (parent : Option Nat) (io : IoPl
   simp [progOf, wf]
 
 end Typing
+
+/-! ### a small concrete instance (examples, driver): the content is identified with its root -/
+
+/-- content = root = a stamp; a write set is the new stamp, a delta the prior stamp -/
+def stampOps (α : Type) : DbOps α α α α where
+  rootOf := id
+  applyW := fun _ w => w
+  pushLog := fun l d => d :: l
+  traceback := fun c ds => ds.getLast?.getD c
+
+abbrev natOps : DbOps Nat Nat Nat Nat := stampOps Nat
+
+def natDb (r : Nat) : Db Nat Nat Nat := { content := r, root := r, log := [] }
+
+/-- a changeset from stamp `b` to stamp `n` -/
+def natCS (b n : Nat) : CS Nat Nat Nat := { base := b, newRoot := n, writes := n, delta := some b }
 
 end Nomt.Locks2
